@@ -464,7 +464,15 @@ def check_property(prop: str, tier: str, seed: int, write_baseline=False, only_u
         try:
             bounded = mod.run(tier=tier, seed=seed)
         except Exception:
-            errors.append("bounded layer crashed:\n" + traceback.format_exc())
+            tb_ = traceback.format_exc()
+            if any(bu.get("sha256") not in (None, r_.get("sha256")) for r_ in results for bu in [baseline["units"].get(r_["unit"], {})]) or "/geneticengine/" in tb_.split("rt/")[-1]:
+                # the driver's own code fell over an answer of the library that it could not digest, on a tree that differs
+                # from the baseline: that is an observation about the changed code (reported, with the traceback), not a fault
+                # of the checker
+                violations.append({"key": f"rt:{prop}:driver-could-not-digest-library-behaviour", "unit": "bounded", "file": None, "line": None, "status": "bounded-violation",
+                                   "note": "the bounded driver crashed on this tree: " + tb_[-700:], "replay": {"confirmed": False}, "bounded": True})
+            else:
+                errors.append("bounded layer crashed:\n" + tb_)
         if bounded:
             for v in bounded.get("violations", []):
                 rec = {"key": v["key"], "unit": v.get("unit", "bounded"), "file": v.get("file"), "line": None, "status": "bounded-violation", "note": v["what"], "replay": v.get("replay", {"confirmed": True}), "bounded": True}
